@@ -10,7 +10,9 @@ FIELDS = ['trs', 'twp', 'twp_num', 'twp_ns', 'twp_undef', 'rge', 'rge_num', 'rge
           'sec', 'sec_num', 'sec_undef']
 NUMS_T = [0, 1, 2, 9, 10, 99, 100, 154, 999, 1000, -5]
 NUMS_S = [0, 1, 9, 10, 14, 36, 99, 100, -1]
-PROBE = ['1', '0', 'n', 'w', 'X', '_', 'z', ' ', 'x', '-', 'S', '٣', '\n']
+# incl. characters that only a case-insensitive or folding comparison would take for a direction letter: long s (U+017F, folds to 's'),
+# Kelvin sign (U+212A, folds to 'k'), fullwidth N
+PROBE = ['1', '0', 'n', 'w', 'X', '_', 'z', ' ', 'x', '-', 'S', '٣', '\n', '\u017f', '\u212a', '\uff2e']
 
 
 def encodings(n, d, kind):
